@@ -234,6 +234,11 @@ class Evaluator:
                     env[('v', d['d'])] = TOP
             return env
         if k == 'BinaryOperator' and st.get('op') == '=':
+            rhs = f.s(f.strip_casts(st['ch'][1]))
+            if rhs is not None and rhs['k'] == 'CXXNewExpr':
+                base = 'new@%d' % rhs['l']
+                self.allocs[base] = self.ev(rhs['ch'][0], env) if rhs['ch'] else TOP
+                return self.assign(st['ch'][0], Ptr(base, Aff(0)), env)
             return self.assign(st['ch'][0], self.ev(st['ch'][1], env), env)
         if k == 'CompoundAssignOperator' and st.get('op') in ('+=', '-='):
             cur = self._value_of_lvalue(st['ch'][0], env)
@@ -319,8 +324,13 @@ class Evaluator:
                     ordered = sorted(keys, key=lambda k: (k[0] != 'f', fresh_order.index(k[1]) if (k[0] == 'f' and k[1] in fresh_order) else 99, str(k)))
                     for k in ordered:
                         vals = [e_.get(k, TOP) for e_ in envs]
+                        nonnull = [v for v in vals if not (isinstance(v, Ptr) and v.base == 'null')]
                         if all(v is not TOP and v == vals[0] for v in vals):
                             new[k] = vals[0]
+                        elif k[0] == 'v' and all(isinstance(v, Ptr) for v in vals) and nonnull and all(v == nonnull[0] for v in nonnull):
+                            # a local pointer that is null on some edges and one block on the others: the block (a null storage carries no bytes,
+                            # the same convention as for `p ? p + x : nullptr`)
+                            new[k] = nonnull[0]
                         elif k[0] == 'f' and k[1] in fresh_fields:
                             name = '%s@b%d' % (k[1], b)
                             rel = None
